@@ -212,7 +212,9 @@ func checkC20(c *Ctx, r *Report) {
 		viol := "the rejection message is not built from FieldError.Field()/Tag()"
 		var sites []string
 		f, t := false, false
-		for _, cl := range callsIn(fi.SSA, true, func(n string) bool { return strings.HasSuffix(n, ".FieldError).Field") || strings.HasSuffix(n, ".FieldError).Tag") }) {
+		for _, cl := range callsIn(fi.SSA, true, func(n string) bool {
+			return strings.HasSuffix(n, ".FieldError).Field") || strings.HasSuffix(n, ".FieldError).Tag")
+		}) {
 			sites = append(sites, w.pos(cl.Pos()))
 			if strings.HasSuffix(calleeName(cl), "Field") {
 				f = true
@@ -808,7 +810,9 @@ func checkGlobs(c *Ctx, r *Report) {
 				}
 				return false
 			},
-			func(a *sliceAtoms, cnd ssa.Value) bool { return a.hasFieldNamed("ControllerGlobs") && a.Calls["builtin.len"] }, true, 1,
+			func(a *sliceAtoms, cnd ssa.Value) bool {
+				return a.hasFieldNamed("ControllerGlobs") && a.Calls["builtin.len"]
+			}, true, 1,
 			"configured globs replace the defaults whenever at least one is configured")
 	}
 
